@@ -4,7 +4,7 @@
 //!   * query-set SHAPES: each of p polynomials gets a non-empty subset of m points; all shapes
 //!     with p <= 3 (quick) / p <= 4 (thorough), m <= 3, in which every point is used (a shape with
 //!     an unused point is the same query set as a shape with fewer points), each in every
-//!     distinct query ORDER {by polynomial, by point, reversed}; plus 6 larger hand-listed
+//!     distinct query ORDER {by polynomial, by point, reversed}; plus 7 larger hand-listed
 //!     shapes (12 polynomials, 5 points, the PLONK rotation pattern).
 //!   * polynomial families: seeded random; zero/constant polynomials; two identical polynomials
 //!     behind distinct references; single-point polynomials given to the verifier as chopped
@@ -857,7 +857,7 @@ fn main() {
         "query-set shapes (each of p polynomials -> non-empty subset of m points, every point used): ALL shapes \
          with p<=3 (quick) / p<=4 (thorough), m<=3, in every distinct query order {by-poly, by-point, reversed}, \
          plus 7 hand-listed larger shapes (up to 12 polynomials / 5 points, PLONK rotation pattern x, wx, w^-1 x, \
-         w^(n/2) x). Every (shape, order) with the seeded-random family at k=2 and with further (family, k) \
+         w^(n/2) x). Every (shape, order) with the seeded-random family at k=2 and with 1 (quick) / 2 (thorough) further (family, k) \
          combinations from {rand, zero-const, const-zero, identical, chopped2, chopped3, chopped4} x k in {2,4,7} \
          assigned round-robin (all combinations for the large shapes). One case = honest round + every single \
          fault: each claimed evaluation +1; each query point -> fresh value / next point of the shape; each \
